@@ -15,8 +15,9 @@ LEVEL = "proof"
 TRUSTED = ["numba compiles the kernels with the semantics of their Python source (A6)", "numpy model",
            "finite-sum meta-lemma: a sum whose summand is linear in the current densities is linear in them"]
 ASSUMPTIONS = ["evaluation points are off the current sheet (r != 0) - precondition of the division",
-               "NOT under contract (stated, not claimed): unit conversion in biot_savart_2d / convert_field (pint), Solution.field_at_position / "
-               "vector_potential_at_position assembly - bounded native run only",
+               "convert_field, Solution.vector_potential_at_position, Solution.load_tdgl_data (current density) and Mesh.get_quantity_on_site are executed with the "
+               "pint model (symbolic unit factors) and the reduction models of pyvc.gsum; Solution.field_at_position and biot_savart_2d only under call contracts "
+               "(which units / arrays are handed to the kernels); the pint library itself is an assumed contract (A4), cross-checked by the bounded native run",
                "current_loop_vector_potential: sin/cos/arccos/arctan2/sqrt/ellipk/ellipe uninterpreted, generic evaluation point; proved: the result is the "
                "documented closed form evaluated at the position relative to the loop centre in SI units, linear in the current (off axis / off wire), "
                "unchanged when loop and points are translated together.  That the closed form equals the Biot-Savart line integral is analysis (A3): "
@@ -610,6 +611,7 @@ def units():
                    lambda m=None: sc.run_current_density(m, prefixes=("C20.",)), props=["C20", "C08"], timeout=300))
     us.append(Unit("Mesh.get_quantity_on_site", "tdgl.finite_volume.mesh:Mesh.get_quantity_on_site",
                    lambda m=None: sc.run_site_average(m, prefixes=("C20.",)), props=["C20", "C13"], timeout=300))
+    us.append(Unit("convert_field", EM + ":convert_field", lambda m=None: sc.run_convert_field(m, prefixes=("C20.",)), props=["C20"], timeout=300))
     us.append(_h.bounded_unit("fields from currents on real arrays [bounded]", "tdgl.em / Solution.field_at_position (real)", "C20", _bounded_quick, "biot_savart_loop_potential_and_unit_round_trips", timeout=900))
     return us
 
@@ -660,9 +662,21 @@ def native(seed=0):
         v = rng.normal(size=4)
         for a_, b_ in (("mT", "uA/um"), ("uT", "A/m"), ("mA/um", "tesla")):
             n += 1
-            w = em.convert_field(em.convert_field(v, b_, old_units=a_, with_units=False), a_, old_units=b_, with_units=False)
-            if not np.allclose(w, v, rtol=1e-12):
-                bad.append(dict(what="field unit round trip", units=(a_, b_)))
+            try:
+                w = em.convert_field(em.convert_field(v, b_, old_units=a_, with_units=False), a_, old_units=b_, with_units=False)
+                if not np.allclose(w, v, rtol=1e-12):
+                    bad.append(dict(what="field unit round trip", units=(a_, b_)))
+            except Exception as e_:  # noqa
+                bad.append(dict(what=f"field unit round trip raises {type(e_).__name__}: {str(e_)[:100]}", units=(a_, b_)))
+        for old_, new_, val_, want_ in (("A/m", "tesla", 2.0, 2.0 * mu_0), ("tesla", "A/m", 3.0, 3.0 / mu_0), ("mT", "uT", 1.5, 1500.0), ("uA/um", "mA/mm", 2.0, 2.0)):
+            n += 1
+            try:
+                got_ = em.convert_field(val_, new_, old_units=old_, with_units=False)
+                q_ = em.convert_field(f"{val_} {old_}", new_)
+                if not np.isclose(got_, want_, rtol=1e-12) or not np.isclose(q_.magnitude, want_, rtol=1e-12) or str(q_.units) != str(em.ureg(new_).units):
+                    bad.append(dict(what="convert_field: B = mu0 H / same-kind conversion gives the wrong value or units", old=old_, new=new_, got=float(got_), want=want_))
+            except Exception as e_:  # noqa
+                bad.append(dict(what=f"convert_field raises {type(e_).__name__}: {str(e_)[:100]}", old=old_, new=new_))
     # Solution.field_at_position of a film that is NOT at height zero against the kernel called directly with the same sheet
     try:
         import logging
@@ -782,6 +796,7 @@ MUTANTS = [
     dict(name="vector potential: mu0/2pi", edits=[(SOL_, "A = (ureg(\"mu_0\") / (4 * np.pi) * A).to(units)", "A = (ureg(\"mu_0\") / (2 * np.pi) * A).to(units)")], units=["Solution.vector_potential_at_position"]),
     dict(name="vector potential: time of the last frame", edits=[(SOL_, "A_kwargs[\"t\"] = self.times[self.solve_step]", "A_kwargs[\"t\"] = self.times[-1]")], units=["Solution.vector_potential_at_position"]),
     dict(name="current density: total is the supercurrent only", edits=[(SOL_, "return self.supercurrent_density + self.normal_current_density", "return self.supercurrent_density")], units=["Solution.load_tdgl_data[current density]"]),
+    dict(name="convert_field: H -> B divides by mu0", edits=[(EM, "value = (value * ureg(\"mu0\")).to(new_units)", "value = (value / ureg(\"mu0\")).to(new_units)")], units=["convert_field"]),
     dict(name="site average not halved", edits=[("tdgl.finite_volume.mesh", "vector_val = xp.array([x_group_values, y_group_values]).T / 2", "vector_val = xp.array([x_group_values, y_group_values]).T")], units=["Mesh.get_quantity_on_site"]),
     dict(name="loop azimuth from the absolute position", edits=[(EM, "    phis = np.arctan2(positions[:, 1], positions[:, 0]) + np.pi / 2", "    phis = np.arctan2(positions[:, 1] + loop_center[:, 1], positions[:, 0] + loop_center[:, 0]) + np.pi / 2")], units=["current_loop_vector_potential"]),
     dict(name="loop radius not converted to metres", edits=[(EM, "    a = loop_radius * to_meter\n    current = current * to_amp\n    positions = positions - loop_center", "    a = loop_radius\n    current = current * to_amp\n    positions = positions - loop_center")], units=["current_loop_vector_potential"]),
